@@ -441,6 +441,8 @@ class Interp(EvalMixin, BuiltinMixin):
         lab = lambda w: f"{fr.func.key}@L{node.lineno}:loop{ordn}.{w}"
         sfr = Frame(fr.module, fr.cls, fr.func, True, parent=fr)
         sfr.defs = dict(self.top.defs) if self.top else {}
+        if self.depth == 0:
+            sfr.olds = getattr(self, "entry_olds", {})
         invs = list(auto_inv or []) + list(spec.invariants)
         if auto_bound is not None:
             invs.append(("auto.bound", None))
@@ -727,7 +729,13 @@ class Interp(EvalMixin, BuiltinMixin):
         for (lbl, text) in con.lemma_hints:
             run.assume(zbool(truth(self.ev(parse_expr(text), sfr))))
         run.reached("requires")
-        self.collect_olds(con, sfr, [t for (_, t) in con.ensures_])
+        pre_when = {}
+        for k, (exc_name, when, iff) in enumerate(con.raises_):
+            if k not in con.at_raise:
+                pre_when[k] = zbool(truth(self.ev(parse_expr(when), sfr)))
+        self.collect_olds(con, sfr, [t for (_, t) in con.ensures_] +
+                          [t for lp in con.loops.values() for (_, t) in lp.invariants])
+        self.entry_olds = sfr.olds
         # entry snapshot for the frame check
         entry = self.snapshot_heap(params)
         outcome, value, exc = "return", None, None
@@ -739,13 +747,13 @@ class Interp(EvalMixin, BuiltinMixin):
             outcome, exc = "raise", e.exc
         except (BreakEx, ContinueEx):
             raise EngineError("break/continue escaped the function body")
-        lab = lambda w: f"{info.key}:{w}"
+        lab = lambda w: f"{con.key}:{w}"
         if outcome == "return":
             run.reached("return")
             sfr.locals["result"] = value
-            for (exc_name, when, iff) in con.raises_:
+            for k, (exc_name, when, iff) in enumerate(con.raises_):
                 if iff:
-                    w = zbool(truth(self.ev(parse_expr(when), self._old_frame(sfr))))
+                    w = pre_when[k] if k in pre_when else zbool(truth(self.ev(parse_expr(when), self._old_frame(sfr))))
                     run.oblige(lab(f"raises.{exc_name}.iff"), z3.Not(w), kind="post")
             for (lbl, text) in con.ensures_:
                 g = zbool(truth(self.ev(parse_expr(text), sfr)))
@@ -753,11 +761,12 @@ class Interp(EvalMixin, BuiltinMixin):
             self.check_frame(con, sfr, entry, lab)
         else:
             run.reached("raise:" + exc)
-            allowed = [(e, w) for (e, w, iff) in con.raises_ if self.is_subclass_exc(exc, e)]
+            allowed = [(k, e, w) for k, (e, w, iff) in enumerate(con.raises_) if self.is_subclass_exc(exc, e)]
             if not allowed:
                 run.oblige(lab(f"no-undeclared-exception.{exc}@L{self.cur_line}"), False, kind="exc")
             else:
-                ws = [zbool(truth(self.ev(parse_expr(w), self._old_frame(sfr)))) for (_, w) in allowed]
+                ws = [pre_when[k] if k in pre_when else zbool(truth(self.ev(parse_expr(w), self._old_frame(sfr))))
+                      for (k, _, w) in allowed]
                 run.oblige(lab(f"raises.{exc}.when"), z3.Or(ws), kind="exc")
         self.frames.pop()
 
